@@ -11,8 +11,8 @@ EXTENDS Naturals, Sequences, FiniteSets, TLC
 
 CONSTANTS MaxLines, MaxStack
 
-VARIABLES lines, stack, pend
-vars == <<lines, stack, pend>>
+VARIABLES lines, stack, pend, fresh          \* fresh: the command list being read has no command yet (a body may not be empty)
+vars == <<lines, stack, pend, fresh>>
 
 Code == {"TOP", "THEN", "DO", "BRACE", "PAREN", "ARM", "CS"}            \* modes in which commands are read
 Top == IF stack = <<>> THEN "TOP" ELSE stack[Len(stack)]
@@ -33,24 +33,36 @@ Lines == {
   L("hd", "cat <<E", Code, "HERE", "", "", FALSE), L("hdq", "cat <<'E'", Code, "HERE", "", "", FALSE), L("hdend", "E", {"HERE"}, "", "HERE", "", FALSE), L("hdnot", " E", {"HERE"}, "", "", "", FALSE),
   L("cso", "echo $(", Code, "CS", "", "", FALSE), L("csc", ")", {"CS"}, "", "CS", "", FALSE), L("peo", "echo ${x:-", Code, "PE", "", "", FALSE), L("pec", "}", {"PE"}, "", "PE", "", FALSE), L("pemid", "w", {"PE"}, "", "", "", FALSE),
   L("arro", "x=(1", Code, "ARR", "", "", FALSE), L("arrc", "2)", {"ARR"}, "", "ARR", "", FALSE), L("aro", "echo $((1 +", Code, "AR", "", "", FALSE), L("arc", "2))", {"AR"}, "", "AR", "", FALSE),
-  L("bqo", "echo `echo", Code, "BQ", "", "", FALSE), L("bqc", "x`", {"BQ"}, "", "BQ", "", FALSE) }
+  L("bqo", "echo `echo", Code, "BQ", "", "", FALSE), L("bqc", "x`", {"BQ"}, "", "BQ", "", FALSE),
+  \* second generation: until / elif, [[ ]] and (( )) commands, function with a subshell body, <<- documents, two documents on one line
+  L("until", "until true", Code, "LOOP", "", "", FALSE), L("elif", "elif false; then", {"THEN"}, "", "", "", FALSE), L("elifc", "elif false", {"THEN"}, "", "", "IFC", FALSE),
+  L("condo", "[[ a == a &&", Code, "COND", "", "", FALSE), L("condc", "b == b ]]", {"COND"}, "", "COND", "", FALSE), L("arco", "(( 1 +", Code, "ARC", "", "", FALSE), L("arcc", "2 ))", {"ARC"}, "", "ARC", "", FALSE),
+  L("fnp", "f() (", Code, "PAREN", "", "", FALSE), L("hdd", "cat <<-E", Code, "HERED", "", "", FALSE), L("hddend", "\tE", {"HERED"}, "", "HERED", "", FALSE), L("hddnot", " E", {"HERED"}, "", "", "", FALSE),
+  L("hd2", "cat <<E; cat <<F", Code, "HERE2", "", "", FALSE), L("hd2e", "E", {"HERE2"}, "", "", "HEREF", FALSE), L("hd2f", "F", {"HEREF"}, "", "HEREF", "", FALSE), L("hd2not", "F", {"HERE2"}, "", "", "", FALSE),
+  L("midh", "mid $x", {"HERED", "HERE2", "HEREF"}, "", "", "", FALSE), L("rbpipe", "} |", {"BRACE"}, "", "BRACE", "", TRUE), L("doneand", "done &&", {"DO"}, "", "DO", "", TRUE), L("fiamp", "fi &", {"THEN"}, "", "THEN", "", FALSE) }
 
 \* after a pending line (backslash, && , | , ||) only a plain command continues it
+Openers == {"then", "else", "elif", "do", "fnlb"}                 \* lines after which a new (still empty) command list starts
+NeedBody == {"fi", "fiamp", "else", "elif", "elifc", "done", "doneand", "rb", "rbpipe", "rp"}    \* lines that end a list which may not be empty
 Offered(l) == /\ Top \in l.w
               /\ (pend => l.n \in {"cmd", "cmdbs", "cmdand", "cmdpipe", "semi"})
               /\ (l.push # "" => Len(stack) < MaxStack)
+              /\ (l.n \in NeedBody => ~fresh)
 Take(l) == /\ Offered(l) /\ Len(lines) < MaxLines
            /\ lines' = Append(lines, l.n)
            /\ pend' = l.p
+           /\ fresh' = IF l.push \in Code \/ l.n \in Openers THEN TRUE
+                       ELSE IF l.n \in {"comment", "blank"} \/ Top \notin Code THEN fresh
+                       ELSE FALSE
            /\ stack' = LET s1 == IF l.pop # "" \/ l.repl # "" THEN SubSeq(stack, 1, Len(stack) - 1) ELSE stack
                            s2 == IF l.repl # "" THEN Append(s1, l.repl) ELSE s1 IN
                        IF l.push # "" THEN Append(s2, l.push) ELSE s2
-Init == lines = <<>> /\ stack = <<>> /\ pend = FALSE
+Init == lines = <<>> /\ stack = <<>> /\ pend = FALSE /\ fresh = TRUE
 Next == \E l \in Lines : Take(l)
 Spec == Init /\ [][Next]_vars
 
 NeedsMore == stack # <<>> \/ pend
 \* sanity of the machine
 StackBounded == Len(stack) <= MaxStack
-LeavesAreLeaves == \A i \in 1..Len(stack) : stack[i] \in {"SQ", "DQ", "HERE", "PE", "ARR", "AR", "BQ"} => i = Len(stack)
+LeavesAreLeaves == \A i \in 1..Len(stack) : stack[i] \in {"SQ", "DQ", "HERE", "HERED", "HERE2", "HEREF", "PE", "ARR", "AR", "BQ", "COND", "ARC"} => i = Len(stack)
 =============================================================================
